@@ -264,27 +264,30 @@ func runC18(c *eng.Ctx) {
 		info := f.Pkg.TypesInfo
 		minInt := p.Field(pkgHTypes, "Settings", "ExecutionMinInterval")
 		burstF := p.Field(pkgHTypes, "Settings", "ExecutionBurst")
-		var dur, bur types.Object
-		eng.InspectNoLit(f.Decl.Body, func(n ast.Node) bool {
-			as, ok := n.(*ast.AssignStmt)
-			if !ok || len(as.Rhs) != 1 || len(as.Lhs) != 2 {
-				return true
-			}
-			if cl, isC := ast.Unparen(as.Rhs[0]).(*ast.CallExpr); isC {
-				if eng.IsPkgFunc(eng.CalleeOf(info, cl), "time", "ParseDuration") {
-					dur = eng.SelObj(info, as.Lhs[0])
+		// the stored values come from the parsers (through locals and conversions), or are constants
+		fromParser := func(e ast.Expr, isParser func(types.Object) bool) bool {
+			n := 0
+			for _, src := range valueSources(info, f.Decl.Body, e, 6) {
+				if tv, has := info.Types[src]; has && tv.Value != nil {
+					continue
 				}
-				if eng.IsPkgFunc(eng.CalleeOf(info, cl), "strconv", "ParseInt") || eng.IsPkgFunc(eng.CalleeOf(info, cl), "strconv", "Atoi") {
-					bur = eng.SelObj(info, as.Lhs[0])
+				cl, isC := ast.Unparen(src).(*ast.CallExpr)
+				if !isC || !isParser(eng.CalleeOf(info, cl)) {
+					return false
 				}
+				n++
 			}
-			return true
-		})
+			return n > 0
+		}
 		stored := false
 		ast.Inspect(f.Decl.Body, func(n ast.Node) bool {
 			if cl, ok := n.(*ast.CompositeLit); ok {
 				a, b := litKeyValue(info, cl, minInt), litKeyValue(info, cl, burstF)
-				if a != nil && b != nil && dur != nil && bur != nil && eng.SelObj(info, a) == dur && eng.UsesObj(info, b, bur, false) {
+				if a != nil && b != nil &&
+					fromParser(a, func(o types.Object) bool { return eng.IsPkgFunc(o, "time", "ParseDuration") }) &&
+					fromParser(b, func(o types.Object) bool {
+						return eng.IsPkgFunc(o, "strconv", "ParseInt") || eng.IsPkgFunc(o, "strconv", "Atoi")
+					}) {
 					stored = true
 				}
 			}
